@@ -36,11 +36,12 @@ RaiseOf(tg) == tg = "aarch64"
 (* C side                                                                   *)
 ShiftL(lv, base, u) == [j \in 1..Len(lv) |-> [lv[j] EXCEPT !.off = @ + base, !.un = @ \/ u]]
 
-(* leaves: [off, sz, cl, un (below a union), k ("m" member | "bf" named bit-field | "ubf" unnamed bit-field)] *)
+(* leaves: [off, sz, cl, un (below a union), k ("m" member | "bf" named bit-field | "ubf" unnamed bit-field),  *)
+(*          ptr (a pointer: integer class everywhere, but not an "integer" for the RISC-V flattening rule)]    *)
 RECURSIVE CFlat(_, _)
 CFlat(T, raise) ==
   CASE T.k = "sc"  -> [size |-> SSize(T.n), align |-> SSize(T.n), flex |-> FALSE,
-                       lv |-> <<[off |-> 0, sz |-> SSize(T.n), cl |-> SClass(T.n), un |-> FALSE, k |-> "m"]>>]
+                       lv |-> <<[off |-> 0, sz |-> SSize(T.n), cl |-> SClass(T.n), un |-> FALSE, k |-> "m", ptr |-> T.n = "ptr"]>>]
     [] T.k = "arr" -> LET e == CFlat(T.of, raise) IN
                       [size |-> e.size * T.n, align |-> e.align, flex |-> T.n = 0 \/ e.flex,
                        lv |-> Concat([j \in 1..T.n |-> ShiftL(e.lv, (j - 1) * e.size, FALSE)])]
@@ -50,7 +51,7 @@ CFlat(T, raise) ==
              L   == DFold(T, raise, sub)
              mem(i) == LET m == T.ms[i] f == L.fs[i] IN
                        IF IsBF(m)
-                       THEN <<[off |-> f.off, sz |-> sub[i].size, cl |-> "int", un |-> T.un, k |-> IF m.nm THEN "bf" ELSE "ubf"]>>
+                       THEN <<[off |-> f.off, sz |-> sub[i].size, cl |-> "int", un |-> T.un, k |-> IF m.nm THEN "bf" ELSE "ubf", ptr |-> FALSE]>>
                        ELSE ShiftL(sub[i].lv, f.off, T.un)
          IN [size |-> L.size, align |-> L.align, flex |-> L.flex, lv |-> Concat([i \in 1..n |-> mem(i)])]
 
@@ -72,7 +73,7 @@ QFlat(Q) ==
                             f == fs[i]
                             e == IF f.c = ":" THEN QFlat(f.t)
                                  ELSE [size |-> QSize(f.c), align |-> QSize(f.c), dark |-> FALSE,
-                                       lv |-> <<[off |-> 0, sz |-> QSize(f.c), cl |-> QCl(f.c), un |-> FALSE, k |-> "m"]>>]
+                                       lv |-> <<[off |-> 0, sz |-> QSize(f.c), cl |-> QCl(f.c), un |-> FALSE, k |-> "m", ptr |-> FALSE]>>]
                             o == AlignUp(p.sz, e.align)
                         IN [sz |-> o + f.n * e.size, al |-> Max(p.al, e.align), dark |-> p.dark \/ e.dark,
                             lv |-> p.lv \o Concat([j \in 1..f.n |-> ShiftL(e.lv, o + (j - 1) * e.size, Q.k = "union")])]
@@ -152,7 +153,7 @@ AAPCS(F) ==
 RV64(F) ==
   LET lv == F.lv
       n == Len(lv)
-      flat == n \in {1, 2} /\ (\A j \in 1..n : ~lv[j].un) /\ (\E j \in 1..n : lv[j].cl = "flt")
+      flat == n \in {1, 2} /\ (\A j \in 1..n : ~lv[j].un /\ ~lv[j].ptr) /\ (\E j \in 1..n : lv[j].cl = "flt")
               /\ (n = 2 => lv[1].off + lv[1].sz <= lv[2].off)
   IN IF flat THEN <<"flat">> \o [j \in 1..n |-> IF lv[j].cl = "flt" THEN "f" ELSE "i"] \o [j \in 1..n |-> lv[j].sz]
      ELSE IF F.size <= 16 THEN <<"int", CeilDiv(F.size, 8), F.align = 16>>
@@ -184,6 +185,9 @@ DescrClasses(T, tg) ==
              \cup (IF \E i \in 1..n : IsBF(T.ms[i]) /\ ~T.ms[i].nm THEN {"unnamed-bitfield"} ELSE {})
              \cup (IF \E i \in 1..n : Strip(T.ms[i].t).k = "sc" /\ Strip(T.ms[i].t).n = "ldouble" THEN {"long-double"} ELSE {})
              \cup (IF \E i \in 1..n : IsBF(T.ms[i]) /\ T.ms[i].nm THEN {"bitfield"} ELSE {})
+             \* QBE IL has no pointer class: `l` beside a float is flattened by QBE's rv64 ABI, LP64D flattens integers only
+             \cup (IF tg = "riscv64" /\ (LET lv == CFlat(T, FALSE).lv IN (\E l \in 1..Len(lv) : lv[l].ptr) /\ (\E l \in 1..Len(lv) : lv[l].cl = "flt"))
+                   THEN {"pointer-beside-float-rv"} ELSE {})
        IN own \cup UNION {DescrClasses(T.ms[i].t, tg) : i \in 1..n}
 
 CurView == [impl |-> TRUE, raise |-> FALSE, devs |-> Devs]
